@@ -33,6 +33,9 @@ USERS = {
     # model says is active)
     "user2b": usm.User(b"user2", ("sha1", b"authpass-two"), ("vstream", b"privpass-other")),
     "user2c": usm.User(b"user2", ("sha1", b"authpass-changed"), ("vstream", b"privpass-two")),
+    # same pass-phrases, other authentication protocol (the privacy key is
+    # localised with the authentication protocol's hash)
+    "user2d": usm.User(b"user2", ("md5", b"authpass-two"), ("vstream", b"privpass-two")),
 }
 SETTINGS = {
     "timeout": [6, 1],
@@ -57,6 +60,8 @@ def lib_creds(name):
         return V3("user2", Auth(b"authpass-two", "sha1"), Priv(b"privpass-other", "vstream"))
     if arg == "user2c":
         return V3("user2", Auth(b"authpass-changed", "sha1"), Priv(b"privpass-two", "vstream"))
+    if arg == "user2d":
+        return V3("user2", Auth(b"authpass-two", "md5"), Priv(b"privpass-two", "vstream"))
     return V3("user2", Auth(b"authpass-two", "sha1"), Priv(b"privpass-two", "vstream"))
 
 
@@ -154,7 +159,7 @@ SUBALPHABETS = {
     "mixed": dict(settings={"credentials": ["v2c:b", "v1:a", "v3:user2"], "timeout": [1], "context": ["ctx-c"]}, request=False, bogus=True),
     # one user name, changing passwords (keys derived from a password must
     # not outlive the credentials they were derived from)
-    "same-user+request": dict(settings={"credentials": ["v3:user2", "v3:user2b", "v3:user2c"]}, request=True, bogus=False),
+    "same-user+request": dict(settings={"credentials": ["v3:user2", "v3:user2b", "v3:user2c", "v3:user2d"]}, request=True, bogus=False, max_history={"quick": 4, "thorough": 5}),
 }
 ACTIVE = [SUBALPHABETS["credentials"]]
 
@@ -375,7 +380,8 @@ def build(hist):
 
 
 def bounds(tier):
-    return {"max_history": 5 if tier == "quick" else 7, "max_nesting": 4, "subalphabets": list(SUBALPHABETS)}
+    return {"max_history": 5 if tier == "quick" else 7, "max_nesting": 4, "subalphabets": list(SUBALPHABETS),
+            "max_history_of": {k: v["max_history"][tier] for k, v in SUBALPHABETS.items() if "max_history" in v}}
 
 
 def shards(tier):
@@ -415,7 +421,8 @@ def run_shard(params, acc):
     v0 = step(s0, first)
     on_transition((), first, s0, v0)
     s0.close()
-    res = statespace.bfs(build, events, step, lambda s: s.fingerprint(), b["max_history"], on_transition=on_transition, roots=((first,),), probe=probe, dispose=lambda sm: sm.close())
+    depth = ACTIVE[0].get("max_history", {}).get(params["tier"], b["max_history"])
+    res = statespace.bfs(build, events, step, lambda s: s.fingerprint(), depth, on_transition=on_transition, roots=((first,),), probe=probe, dispose=lambda sm: sm.close())
     acc.count(evaluations=res.states, nontrivial=0, states=res.states, transitions=res.transitions + 1 + res.states)
     acc.maxi("max_depth", res.max_depth)
     acc.bump("request_probes", res.states)
